@@ -21,6 +21,31 @@ CLAIMS = {
             "Coq proof + count sweep correspondence (frag driver)"),
     "C18": ("Theorems on the index arithmetic the unsafe blocks rely on: recv never trips its capacity assert nor overflows for ANY packet sequence and returns exactly the announced length; send never slices out of range; generated CMSG_* arithmetic; receive-buffer sizes of every recvmsg/recv compared with the model; zero/odd-length regions; ASan in thorough mode (support only)",
             "Coq proof of buffer/index arithmetic + trace correspondence of buffer sizes (+ ASan as search support)"),
+    "C03": ("Theorems over the Ideal model (handles = references with DERIVED counts, gc of unreferenced receiving ends): invariant for every reachable state, "
+            "'disconnected' iff queue empty and no sender handle alive and no sender in transit in a live queue, idle channel is 'empty', pending messages first; "
+            "carried to the unix back end by unix_refines_ideal (for every program both models give the same outcomes); random histories compared with a reference "
+            "count kept by the generator, with both models and with the descriptor ledger",
+            "refinement proof (Unix refines Ideal) + invariant proofs in Coq; program-level correspondence (prog driver)"),
+    "C04": ("Theorems: positional round-trip of values with endpoints/regions at arbitrary depth through the bincode model and the attachment side tables (C04_positions), "
+            "descriptor order on the wire (C04_wire_order), i-th right becomes i-th handle of the same channel (C04_install_positions), backlog delivered oldest first; "
+            "transfer chains of 1..5 hops with backlog and endpoint-bearing values decoded and probed, compared with the models",
+            "Coq proofs (codec round-trip, wire order, install positions) + chain/codec correspondence"),
+    "C11": ("Theorems over the Unix model for EVERY operation sequence: open descriptors = descriptors owned by live objects (permutation, no duplicates), no close of a "
+            "descriptor that is not open, no double close, nothing left once all handles are gone; per-operation descriptor counts and the full descriptor ledger of random "
+            "programs equal the model's; resource scenarios (failing connects, servers, regions, sets, undecoded messages, bad TMPDIR) repeated; close-on-exec and what a "
+            "spawned child inherits",
+            "ownership-invariant proof in Coq + descriptor-ledger correspondence + resource scenario oracle"),
+    "C14": ("Theorems over Tls (serialiser programs with nested and failing sends, any depth): thread-local tables unchanged after ANY send, a message carries exactly "
+            "its own-level attachments, a failed send releases exactly what it collected, independence from earlier table contents; scripted Serialize implementations "
+            "run against the real crate, every message's raw attachments identified by probing and compared with the model",
+            "frame theorems in Coq + scripted-serializer correspondence (script driver)"),
+    "C16": ("Theorems over Codec for ARBITRARY bytes and attachment tables: the decoder is total with two outcomes; conservation (endpoints of the decoded value + leftovers "
+            "= attachments as multisets: no forgery, no duplication, nothing lost); 2400 (thorough 50000) valid / mutated / random / type-confused messages decoded as 12 "
+            "types and compared with the model; release of every attachment and descriptor counts checked; undecoded drops",
+            "Coq proofs (totality, conservation) + differential decoding against the model (codec driver)"),
+    "C19": ("Theorem unix_refines_ideal: for EVERY program the Unix model (OS transport) and the Ideal model (= in-process transport: handles are references) return the "
+            "same outcome list; the same seeded programs run on the default, memfd and in-process builds must agree with each other and with both models",
+            "simulation proof in Coq + three-build differential run (prog driver)"),
 }
 NOT_YET = "check not built yet in this round (planned, see DESIGN.md section 6)"
 
